@@ -1,5 +1,6 @@
 PROP = dict(level="model_checking", parts=[
     cxx("ring", "C05_ring", ninja=CSG, shards=(12, 14), timeout=dict(quick=300, thorough=1500)),
+    cxx("tools", "C05_tools", ninja=CSG + ["csg_stat", "csg_orientcorr"], make=["libvsched_preload.so"], shards=(6, 12), timeout=dict(quick=300, thorough=1500)),
     py("model", "C05_model.py", ninja=CSG, make=["C05_ring"], shards=(4, 8), timeout=dict(quick=300, thorough=1700)),
 ])
 TEXT = dict(engine="vsched", design_ref="DESIGN.md §3 C05, Appendix A",
